@@ -185,8 +185,12 @@ class PandasMaterializer(FormulaMaterializer):
             return spsparse.hstack([col[1] for col in cols])
         if spec.output == "numpy":
             return numpy.stack([col[1] for col in cols], axis=1)
-        return pandas.DataFrame(
-            {col[0]: col[1] for col in cols},
+        # Keyed by position: two columns may share a name (a column called
+        # "a:b" next to the interaction `a:b`), and must both survive.
+        combined = pandas.DataFrame(
+            {i: col[1] for i, col in enumerate(cols)},
             index=pandas_index,
             copy=False,
         )
+        combined.columns = [col[0] for col in cols]
+        return combined
